@@ -94,6 +94,14 @@ impl<S> BufWriter<S> {
                 r is Ok ==> final(self).out() == old(self).out() + src@,
     { unimplemented!() }
 
+    /// AsyncWriteExt::write: ONE write attempt; it may accept any non-empty prefix of a non-empty buffer (never promised to take all)
+    #[verifier::external_body]
+    pub async fn write(&mut self, src: &[u8]) -> (r: io::Result<usize>)
+        ensures final(self).incoming() == old(self).incoming(), final(self).flushed() >= old(self).flushed(),
+                final(self).healthy() == old(self).healthy(), old(self).healthy() ==> r is Ok,
+                r matches Ok(n) ==> n <= src@.len() && (src@.len() > 0 ==> n > 0) && final(self).out() == old(self).out() + src@.take(n as int),
+    { unimplemented!() }
+
     #[verifier::external_body]
     pub async fn flush(&mut self) -> (r: io::Result<()>)
         ensures final(self).incoming() == old(self).incoming(), final(self).out() == old(self).out(),
